@@ -837,7 +837,7 @@ fn ours127<RK: RadioKind>(r: &mut RK, c: &Case, regs: &Rc<RefCell<Regs127>>, is7
         }
         "pkt" => {
             let mp = r.create_modulation_params(SpreadingFactor::_7, Bandwidth::_125KHz, CodingRate::_4_5, 868_100_000).map_err(|e| format!("{e:?}"))?;
-            let pp = r.create_packet_params(p(0) as u16, p(1) != 0, p(2) as u8, p(3) != 0, false, &mp).map_err(|e| format!("{e:?}"))?;
+            let pp = r.create_packet_params(p(0) as u16, p(1) != 0, p(2) as u8, p(3) != 0, p(4) != 0, &mp).map_err(|e| format!("{e:?}"))?;
             ok(drive(r.set_packet_params(&pp)))
         }
         "sync" => {
@@ -1157,6 +1157,8 @@ fn main() {
         mk("sx1276", "pkt", vec![8, 0, 32, 1], 0),
         mk("sx1276", "pkt", vec![8, 0, 32, 0], 0),
         mk("sx1276", "pkt", vec![12, 1, 200, 1], 0),
+        mk("sx1276", "pkt", vec![8, 0, 32, 1, 1], 0),
+        mk("sx1276", "pkt", vec![8, 0, 32, 0, 1], 0),
         mk("sx1276", "sync", vec![0x34], 0),
         mk("sx1276", "sync", vec![0x12], 0),
         mk("sx1276", "symbtimeout", vec![8], 0),
